@@ -165,7 +165,9 @@ let trace_on (p : pool) boot vers client req (fc : coord_fn) : string =
   let entry = function
     | WReq (t, api) ->
       let b = (match t with TBroker i -> hex_of_z i | TControl -> boot) in
-      "b" ^ b ^ ":" ^ hex_of_z api ^ ":" ^ hex_of_z (ver b api)
+      let v = ver b api in
+      "b" ^ b ^ ":" ^ hex_of_z api ^ ":" ^ hex_of_z v
+      ^ (if int_of_z api = 0 then ":" ^ hex_of_z (produce_record_version v) else "")
     | WFind (kt, _) ->
       "b" ^ boot ^ ":" ^ hex_of_z k_FindCoordinator ^ ":" ^ hex_of_z fcver ^ ":" ^ hex_of_z (ktype_at_version fcver kt) in
   match round_trip p q fc with
@@ -211,6 +213,7 @@ let eval (op : string) (a : string list) : string =
   match op, a with
   | "sel", [_; cmin; cmax; bmin; bmax] ->
     hex_of_z (select_version (z_of_hex cmin) (z_of_hex cmax) (z_of_hex bmin) (z_of_hex bmax))
+  | "prep", [v] -> hex_of_z (produce_record_version (z_of_hex v))
   | "class", [api] ->
     let api = z_of_hex api in
     (match message_class api with CBroker -> "broker" | CGroup -> "group" | CTxn -> "txn" | CPlain -> "plain")
